@@ -261,40 +261,41 @@ def relaxation_operator(tau, T1, T2, g):
 
 
 def evolution_d_rT(rT, rL, r0=None):
-    mat, _ = evolution_operator(rT, 0)
+    # (0 * rL keeps the full broadcast shape of the operator array)
+    mat, _ = evolution_operator(rT, 0 * rL)
     mat[..., 2] = 0
     return -mat, None
 
 
 def evolution_d_rL(rT, rL, r0=None):
-    mat, _ = evolution_operator(0, rL)
+    mat, _ = evolution_operator(0 * rT, rL)
     mat[..., :-1] = 0
     return -mat, None
 
 
 def evolution_d_r0(rT, rL, r0=None):
     assert r0 is not None, "r0 cannot be None"
-    mat, mat0 = evolution_operator(0, 0, r0)
+    mat, mat0 = evolution_operator(0 * rT, 0 * rL, r0)
     mat[:] = 0
     mat0[..., -1] -= 1
     return mat, -mat0
 
 
 def evolution_d2_rT(rT, rL, r0=None):
-    mat, _ = evolution_operator(rT, 0)
+    mat, _ = evolution_operator(rT, 0 * rL)
     mat[..., 2] = 0
     return mat, None
 
 
 def evolution_d2_rL(rT, rL, r0=None):
-    mat, _ = evolution_operator(0, rL)
+    mat, _ = evolution_operator(0 * rT, rL)
     mat[..., :-1] = 0
     return mat, None
 
 
 def evolution_d2_r0(rT, rL, r0=None):
     assert r0 is not None, "r0 cannot be None"
-    mat, mat0 = evolution_operator(0, 0, r0)
+    mat, mat0 = evolution_operator(0 * rT, 0 * rL, r0)
     mat[:] = 0
     mat0[..., -1] -= 1
     return mat, mat0
